@@ -40,6 +40,11 @@ def cases(tier):
                     out.append(dict(prev=prev, hops=hops, age=age, unk=unk, crc=2 if (prev + hops) % 2 else 1))
     out.append(dict(prev=1, hops=1, age=1, unk=1, crc=0))
     # a second bundle forwarded after a first one (state kept between bundles must not matter)
+    # creation time zero (clockless source), lifetime zero, repeated previous-node / age blocks
+    out.append(dict(prev=1, hops=1, age=1, unk=0, crc=1, ts0=1))
+    out.append(dict(prev=0, hops=0, age=0, unk=0, crc=2, life0=1))
+    out.append(dict(prev=2, hops=0, age=0, unk=0, crc=0))
+    out.append(dict(prev=3, hops=0, age=2, unk=0, crc=1))
     # report-request flags with and without a report-to endpoint
     out.append(dict(prev=1, hops=1, age=0, unk=0, crc=2, flags=0x10040, rep='none'))
     out.append(dict(prev=0, hops=0, age=1, unk=0, crc=1, flags=0x64060, rep='none'))
@@ -71,6 +76,10 @@ def harness(case, tier):
     ts = c.sym_int('dtntime', 2 ** 32, 2 ** 39)    # before "now" (2^39 ms is the year 2017 in DTN time)
     seq = c.sym_int('seqno', 0, 2 ** 64 - 1 if wide else 23)
     life = c.sym_int('lifetime', 2 ** 32, 2 ** 64 - 1)
+    if case.get('ts0'):
+        ts = 0
+    if case.get('life0'):
+        life = 0
     pri = dict(flags=case.get('flags', 0), crc_type=ct, destination='dtn://far/app', source='dtn://src/app',
                report_to='dtn://rep/svc' if case.get('rep') == 'real' else 'dtn:none',
                create_ts=[ts, seq], lifetime=life)
@@ -84,15 +93,15 @@ def harness(case, tier):
         nums.append(n)
         return n
     hop_in = []
-    if case['prev']:
-        blocks.append(dict(type=6, num=num('n_prev'), flags=0, crc_type=ct, data=rfc9171.enc(rfc9171.eid_cbor('dtn://before/'))))
+    for i in range(case['prev']):
+        blocks.append(dict(type=6, num=num('n_prev%d' % i), flags=0, crc_type=ct, data=rfc9171.enc(rfc9171.eid_cbor('dtn://before%d/' % i))))
     for i in range(case['hops']):
         lim = c.sym_int('limit%d' % i, 24, 255)
         cnt = c.sym_int('count%d' % i, 0, 254)
         hop_in.append((lim, cnt))
         blocks.append(dict(type=10, num=num('n_hop%d' % i), flags=0, crc_type=ct, data=rfc9171.enc([lim, cnt])))
-    if case['age']:
-        blocks.append(dict(type=7, num=num('n_age'), flags=0, crc_type=ct, data=rfc9171.enc(c.sym_int('age_in', 0, 2 ** 32 if wide else 23))))
+    for i in range(case['age']):
+        blocks.append(dict(type=7, num=num('n_age%d' % i), flags=0, crc_type=ct, data=rfc9171.enc(c.sym_int('age_in%d' % i, 0, 2 ** 32 if wide else 23))))
     unk_data = None
     if case['unk']:
         unk_data = c.sym_bytes('unk', 3)
